@@ -124,7 +124,7 @@ def ref_eval(ctx, ob, toks, P):
         S.stack = r['stack']; S.alt = r['alt']; S.vf_size = r['vf'][0]; S.vf_ff = None if r['vf'][1] == r['vf'][0] else r['vf'][1]; S.nop = r['nop']
     return dict(ret=1, stack=S.stack, alt=S.alt, vf=(S.vf_size, S.vf_size if S.vf_ff is None else S.vf_ff), nop=z3.simplify(R.B(S.nop, 32)), pos=POS)
 
-POS = dict(pc=1, script=[0x51, 0x61, 0x52], pend=3, curr_op_seq=1, hist=[1] * 7, done=0)
+POS = dict(pc=1, script=[0x51, 0x61, 0x52], pend=3, curr_op_seq=1, hist=1, done=0)
 
 def impl_outcome(rep, inputs_pre):
     p = rep['post']
